@@ -31,6 +31,7 @@ type mkState struct {
 	Wpos   int      `json:"wpos"`
 	Mem    string   `json:"mem"`
 	K      int      `json:"k"`
+	Nh     int      `json:"nh"` // only in the compact export of bigger trees (hashes / file left out)
 }
 
 type mkAct struct {
@@ -65,8 +66,48 @@ type mkStep struct {
 type mkIn struct {
 	Mode  string `json:"mode"`
 	Paths []struct {
+		Init  *mkState `json:"init"`
 		Steps []mkStep `json:"steps"`
 	} `json:"paths"`
+}
+
+// names of the perfect-subtree roots / of the post-order hash file of a tree of n leaves, derived from n
+// alone (used when the specification's state export leaves them out: bigger trees)
+func mkHashNames(n int) []string {
+	var out []string
+	lo := 0
+	for lo < n {
+		p := 1
+		for p*2 <= n-lo {
+			p *= 2
+		}
+		out = append(out, fmt.Sprintf("%d-%d", lo, lo+p))
+		lo += p
+	}
+	return out
+}
+
+func mkPostOrder(lo, hi int, out *[]string) {
+	if hi-lo > 1 {
+		mid := lo + (hi-lo)/2
+		mkPostOrder(lo, mid, out)
+		mkPostOrder(mid, hi, out)
+	}
+	*out = append(*out, fmt.Sprintf("%d-%d", lo, hi))
+}
+
+func mkFileNames(n int) []string {
+	out := []string{}
+	lo := 0
+	for lo < n {
+		p := 1
+		for p*2 <= n-lo {
+			p *= 2
+		}
+		mkPostOrder(lo, lo+p, &out)
+		lo += p
+	}
+	return out
 }
 
 type mkObs struct {
@@ -246,7 +287,7 @@ func TestVerifMerkleReplay(t *testing.T) {
 		if in.Mode == "B" {
 			nsteps += mkReplayB(out, pi, p.Steps, counts)
 		} else {
-			nsteps += mkReplayA(out, dir, pi, p.Steps, counts)
+			nsteps += mkReplayA(out, dir, pi, p.Init, p.Steps, counts)
 		}
 	}
 	out.Emit(map[string]interface{}{"done": true, "steps": nsteps, "counts": counts})
@@ -262,7 +303,7 @@ func mkCatch(f func()) (panicked string) {
 	return ""
 }
 
-func mkReplayA(out *vhOut, dir string, pi int, steps []mkStep, counts map[string]int) int {
+func mkReplayA(out *vhOut, dir string, pi int, init *mkState, steps []mkStep, counts map[string]int) int {
 	ev := &mkEval{leaf: mkLeafA, memo: map[string][32]byte{}}
 	ta := &mkTreeA{name: filepath.Join(dir, fmt.Sprintf("tree-%d.db", pi))}
 	os.Remove(ta.name)
@@ -276,6 +317,9 @@ func mkReplayA(out *vhOut, dir string, pi int, steps []mkStep, counts map[string
 	}
 	checkState := func(si int, a mkAct, to mkState) {
 		// observable state of the real tree against the model state
+		if to.Nh > 0 && to.Hashes == nil {
+			to.Hashes, to.File = mkHashNames(to.N), mkFileNames(to.N)
+		}
 		if !ta.torn {
 			if int(ta.tree.TreeSize()) != to.N {
 				bad(si, a.Name, "treesize", ta.tree.TreeSize(), to.N)
@@ -297,6 +341,23 @@ func mkReplayA(out *vhOut, dir string, pi int, steps []mkStep, counts map[string
 		if !mkEq(ta.fileHashes(), ev.evals(to.File)) {
 			bad(si, a.Name, "file", mkHex(ta.fileHashes()), to.File)
 		}
+	}
+	if init != nil && init.N > 0 {
+		// the path starts from a tree that already has init.N leaves: build it (reloading now and then)
+		for i := 0; i < init.N; i++ {
+			ta.tree.AppendHash(common.Uint256(mkLeafA(i)))
+			if i%53 == 17 {
+				buf, err := ta.tree.Marshal()
+				vhMust(err)
+				ta.store.Close()
+				ta.store, err = NewFileHashStore(ta.name, ta.tree.TreeSize())
+				vhMust(err)
+				ta.tree = NewTree(0, nil, ta.store)
+				vhMust(ta.tree.UnMarshal(buf))
+			}
+		}
+		counts["InitBuild"]++
+		checkState(-1, mkAct{Name: "InitBuild"}, *init)
 	}
 	for si, st := range steps {
 		a := st.Act
